@@ -26,7 +26,8 @@ class Check(PropertyCheck):
     def rule(self):
         return ("random subsets of {--background, --fill-color, --font-family, --font-size, --stroke-width, --stroke-color, "
                 "--scale, -o, -s} with random values x inputs x {file, stdin, inline}; `build` over random directories; "
-                "error cases (missing file, unparsable number, unwritable output); non-trivial = successful run with at "
+                "error cases (missing file, unparsable number, unwritable output); large inputs (4 KiB .. 128 KiB) whose multi-byte "
+                "characters straddle a power-of-two byte offset, as file, on stdin and in build mode; non-trivial = successful run with at "
                 "least one option, distinct by (argv, input)")
 
     def prepare(self):
@@ -60,6 +61,24 @@ class Check(PropertyCheck):
             if text.startswith("-"):
                 text = "a" + text
         return opts, mode, out, text
+
+    def big_text(self, size):
+        """a large, cheap input whose multi-byte characters straddle the byte offset `size` (a power of two: the block
+        sizes of buffered readers): blank rows up to a few bytes before the offset, then a label of 2-, 3- and 4-byte
+        characters and a small drawing"""
+        r = self.rng
+        start = size - r.range(1, 3)
+        rows, rest = divmod(start, 80)
+        pad = (" " * 79 + "\n") * rows + " " * rest
+        tail = "\u00e9\u6f22\U0001F642\u00e9\u6f22\U0001F642 ok\n +--+\n | \u00e9|\n +--+\n"
+        return pad + tail + (" " * 79 + "\n") * r.range(0, 40) + "\u6f22" * r.range(0, 3) + "\n"
+
+    def big_cases(self):
+        cases = []
+        for k, size in enumerate([4096, 8192, 16384, 32768, 65536, 65536, 131072, 131072]):
+            opts = {"scale": "0.5"} if k % 3 == 0 else {}
+            cases.append((opts, "file" if k % 2 == 0 else "stdin", "file" if k % 4 == 1 else None, self.big_text(size)))
+        return cases
 
     def settings_of(self, opts):
         """(Settings for the library, None if an option value is illegal)"""
@@ -113,7 +132,7 @@ class Check(PropertyCheck):
     def cases_and_results(self, n):
         tmp = tempfile.mkdtemp(prefix="c19_", dir=common.BUILD)
         try:
-            cases = [self.gen_case() for _ in range(n)]
+            cases = [self.gen_case() for _ in range(n)] + self.big_cases()
             runs = [self.run_case(i, c, tmp) for i, c in enumerate(cases)]
             # expected documents from the library
             lines = []
@@ -222,6 +241,9 @@ class Check(PropertyCheck):
                         if sib not in files:
                             files[sib] = gen.random_diagram(self.rng, 10, 3)
                             open(os.path.join(indir, sib), "w", encoding="utf-8").write(files[sib])
+                if round_ % 2 == 0:
+                    files["big%d.bob" % round_] = self.big_text(self.rng.choice([8192, 65536, 131072]))
+                    open(os.path.join(indir, "big%d.bob" % round_), "w", encoding="utf-8").write(files["big%d.bob" % round_])
                 others = ["notes.txt", "d0.txt", "bob", ".bob", "d1.bob.bak", "README"]
                 for o in others:
                     open(os.path.join(indir, o), "w").write("+--+ not a diagram of the batch")
